@@ -775,7 +775,15 @@ impl<'a> Parser<'a> {
             self.parse_re(ix, depth)?
         };
         next = self.check_for_close_paren(next)?;
-        let (end, child) = self.parse_re(next, depth)?;
+        // the truth branch is the first alternative; whatever follows a top-level `|` is the false branch
+        // (an alternation inside a group, `(?(1)(?:b|c))`, is one branch)
+        let (end, if_true) = self.parse_branch(next, depth)?;
+        let end = self.optional_whitespace(end)?;
+        let (end, if_false) = if self.re[end..].starts_with('|') {
+            self.parse_re(end + 1, depth)?
+        } else {
+            (end, Expr::Empty)
+        };
         if end == next {
             // Backreference validity checker
             if let Expr::Backref(group) = condition {
@@ -789,22 +797,6 @@ impl<'a> Parser<'a> {
                     )
                 ));
             }
-        }
-        let if_true: Expr;
-        let mut if_false: Expr = Expr::Empty;
-        if let Expr::Alt(mut alternatives) = child {
-            // the truth branch will be the first alternative
-            if_true = alternatives.remove(0);
-            // if there is only one alternative left, take it out the Expr::Alt
-            if alternatives.len() == 1 {
-                if_false = alternatives.pop().expect("expected 2 alternatives");
-            } else {
-                // otherwise the remaining branches become the false branch
-                if_false = Expr::Alt(alternatives);
-            }
-        } else {
-            // there is only one branch - the truth branch. i.e. "if" without "else"
-            if_true = child;
         }
         let inner_condition = if let Expr::Backref(group) = condition {
             Expr::BackrefExistsCondition(group)
